@@ -5,7 +5,7 @@
 (* with its limb count n; B = 2^64.  PostN(f, i, o): i = inputs as logged  *)
 (* before the call, o = outputs as logged after it.                        *)
 (***************************************************************************)
-EXTENDS Naturals, Integers, Sequences, BigZ, IOFormat, PrintfLayout
+EXTENDS Naturals, Integers, Sequences, BigZ, IOFormat, PrintfLayout, CxxSem, SemIO
 
 LOCAL W == 64
 LOCAL Bn(n) == ZPow2(W * n)
@@ -178,6 +178,17 @@ PostN(f, i, o) ==
         \* ---- C15: calls made by concurrently running threads are validated against the SEQUENTIAL semantics
      [] f = "zcall" -> PostZ(i.fn, i.a, [k \in 1..Len(o.o) |-> [v |-> o.o[k], al |-> 0, sz |-> 0]], o.ret, "0")
      [] f = "thr_rand" -> o.par = i.seq            \* a private generator reproduces its serial stream under every schedule
+        \* ---- C20: C++ class expressions (see CxxSem.tla); targets "t" fresh temporary, "a"/"q" a variable of the tree,
+        \*      "a+=" etc. compound assignments (the tree logged is the expanded form), "int" an int/bool valued root
+     [] f = "cxx_z" -> o.v = EvalZ(i.tree, i.env)
+     [] f = "cxx_q" -> <<o.n, o.d>> = EvalQ(i.tree, i.env)
+     [] f = "cxx_set_str" -> LET p == ParseNum(i.s, i.base) IN IF p.open THEN TRUE ELSE IF p.ok THEN o.ret = 0 /\ o.v = p.v ELSE o.ret = -1
+     [] f = "cxx_ctor_str" -> LET p == ParseNum(i.s, i.base) IN IF p.open THEN TRUE ELSE IF p.ok THEN o.threw = 0 /\ o.v = p.v ELSE o.threw = 1
+     [] f = "cxx_get_str" -> o.s = GetStrText(i.v, i.base)
+     [] f = "cxx_roundtrip" -> o.v = i.v
+     [] f = "cxx_get" -> /\ (o.fits_si # 0) = (ZLe("-8000000000000000", i.v) /\ ZLe(i.v, "7fffffffffffffff"))
+                         /\ (o.fits_ui # 0) = (ZLe("0", i.v) /\ ZLe(i.v, "ffffffffffffffff"))
+                         /\ (o.fits_si # 0 => o.si = i.v) /\ o.ui = ZLowBits(ZAbs(i.v), 64)
      [] f = "mpn_get_str" ->      \* digit values written through the 62-character alphabet by the harness; leading zeros permitted
            LET A62 == "0123456789ABCDEFGHIJKLMNOPQRSTUVWXYZabcdefghijklmnopqrstuvwxyz" IN
            /\ Len(o.s) = o.ret /\ o.ret >= 1
